@@ -15,6 +15,9 @@ func init() {
 }
 
 var routerPatternPool = []string{"/a/{x}", "/a/b", "/a/{y}/b", "/a/*{w}", "/a/b/", "/{x}/b", "/a/b*{w}", "/*{w}/b", "/a", "/a/b/c", "/a/*{w}/c", "/ab"}
+
+// wildcards that do not open their segment, with different names at the same position (they conflict too)
+var routerPrefixedPool = []string{"/a/b{x}/c", "/a/b{y}/d", "/a/b*{w}", "/a/b*{v}/c", "/a/b{x}"}
 var routerInvalidPool = []string{"/a/{", "/*{}", "a/b{x}c", "/a/*{x}/*{y}", "noslash", "/a/*b}"}
 
 func stdProbes(g *routerGen, rng *rand.Rand, n int) {
@@ -83,6 +86,17 @@ func themeSeqPath(r *Run, rng *rand.Rand) *routerGen {
 	return g
 }
 
+// the same over wildcards preceded by static text inside their segment
+func themeSeqPrefixed(r *Run, rng *rand.Rand) *routerGen {
+	pool := append([]string(nil), routerPrefixedPool...)
+	rng.Shuffle(len(pool), func(i, j int) { pool[i], pool[j] = pool[j], pool[i] })
+	pool = pool[:pick(r, 4, 5)]
+	g := baseGen(pool, []string{"GET"})
+	g.Kinds = []string{"Handle", "Update", "Delete"}
+	stdProbes(g, rng, 6)
+	return g
+}
+
 // the same over hostname patterns: a hostname that is a label-prefix of another, parameter labels with
 // conflicting names, a static host, a path-only fallback
 func themeSeqHost(r *Run, rng *rand.Rand) *routerGen {
@@ -120,6 +134,16 @@ func themeTxnTruncSnap(r *Run, rng *rand.Rand) *routerGen {
 		g.Trunc = [][]int{{}, {3}, {2}, {3, 2}, {1, 3}}
 	}
 	g.Settled = []string{"Len"}
+	stdProbes(g, rng, 4)
+	return g
+}
+
+// a transaction in which some writes are refused (a conflict found in the middle of an edge, a duplicate) and the
+// caller goes on: the refused calls leave nothing behind, in particular not in Len
+func themeTxnConflict(r *Run, rng *rand.Rand) *routerGen {
+	pools := [][]string{{"/a/{x}/b", "/a/{y}/c", "/a/{x}/d"}, {"/a/b{x}/c", "/a/b{y}/d", "/a/b"}}
+	g := txnBase(pools[rng.Intn(len(pools))], []string{"Handle", "Delete"}, pick(r, 2, 3), 1)
+	g.Settled = []string{"Len", "Commit", "Abort"}
 	stdProbes(g, rng, 4)
 	return g
 }
@@ -176,7 +200,7 @@ func runThemes(r *Run, seedOffset int64, themes ...func(*Run, *rand.Rand) *route
 
 // C02 - registered routes behave as an exact map keyed by (method, pattern).
 func checkC02(r *Run) {
-	runThemes(r, 0, themeSeqPath, themeSeqHost, themeTxnTrunc)
+	runThemes(r, 0, themeSeqPath, themeSeqHost, themeSeqPrefixed, themeTxnTrunc)
 	runRouterD2(r, 2)
 	r.assumption("route identity is observed through pointer equality and a per-registration annotation")
 }
@@ -184,7 +208,7 @@ func checkC02(r *Run) {
 // C07 - routing depends only on the registered set, not on its history.
 func checkC07(r *Run) {
 	if only("themes") {
-		runThemes(r, 7, themeSeqPath, themeSeqHost, themeTxnFanout, themeTxnNested)
+		runThemes(r, 7, themeSeqPath, themeSeqHost, themeTxnFanout, themeTxnNested, themeTxnTrunc)
 	}
 	if only("matchd2") {
 		runMatchD2(r, true, true)
@@ -209,6 +233,9 @@ func checkC03(r *Run) {
 			cowNegativeRuns(r)
 		}
 	}
+	if only("loads") {
+		runSingleLoadPerRead(r) // the state a request is served from: loaded once, then frozen
+	}
 	if only("roots") {
 		runRoots(r)
 		if !r.quick() {
@@ -219,6 +246,7 @@ func checkC03(r *Run) {
 
 // C04 - transactions are atomic and isolated.
 func checkC04(r *Run) {
-	runThemes(r, 4, themeTxnSibling, themeTxnNested, themeTxnTrunc, themeTxnFanout)
+	runThemes(r, 4, themeTxnSibling, themeTxnNested, themeTxnTrunc, themeTxnFanout, themeTxnConflict)
 	runPanicInsideWrites(r)
+	runSnapshotIsReadOnly(r)
 }
